@@ -7,6 +7,8 @@ CONSTANT TsPool = {1, 2}
 CONSTANT Servers <- ServersImpl
 CONSTANT NewIds <- NewIdsImpl
 CONSTANT IdLess <- IdLessImpl
+CONSTANT AllSubsets = FALSE
+CONSTANT Triples = TRUE
 CONSTANT BaseNames = {"restricted"}
 INVARIANT InvIdentity
 INVARIANT Emit
